@@ -312,6 +312,11 @@ fn gen_tabs(rng: &mut Rng, cols: usize) -> String {
 }
 
 fn gen_scroll(rng: &mut Rng, rows: usize) -> String {
+    if rng.chance(6) {
+        // a burst of short lines: reaches the soft/hard window of scrollback limits >= 20
+        let n = rng.range(15, 130);
+        return (0..n).map(|i| format!("{}\r\n", i % 10)).collect();
+    }
     match rng.below(9) {
         0 => "\n".into(),
         1 => rng.pick(&["\u{1b}D", "\u{84}", "\u{0b}", "\u{0c}"]).to_string(),
@@ -659,7 +664,7 @@ pub fn gen_limit(rng: &mut Rng, w: &W) -> Option<usize> {
     if rng.chance(w.nolimit_pct) {
         None
     } else {
-        Some(*rng.pick(&[0usize, 0, 1, 2, 3, 9, 10, 11, 12, 25]))
+        Some(*rng.pick(&[0usize, 0, 1, 2, 3, 9, 10, 11, 12, 20, 21, 25, 30, 100]))
     }
 }
 
@@ -1195,5 +1200,61 @@ pub fn generate(profile: &str, seed: u64, ncases: usize, tier: &str, out: &mut i
             _ => case_generic(&mut rng, &w, out),
         }
         writeln!(out, "END").unwrap();
+    }
+}
+
+
+/// Bounded-exhaustive family: every sequence of `depth` commands over a fixed alphabet of concrete
+/// commands, on every tiny screen of `EXH_SIZES`, from each start prefix of `EXH_STARTS`.
+/// Cases are numbered; shard `k` of `n` emits the cases whose number is congruent to k mod n.
+const EXH_SIZES: [(usize, usize); 7] = [(1, 1), (2, 1), (1, 2), (2, 2), (3, 2), (2, 3), (3, 3)];
+const EXH_STARTS: [&str; 3] = ["", "abcdefgh\r\nij", "\u{1b}[2;3r\u{1b}[?6hxy"];
+const EXH_ALPHABET: [&str; 50] = [
+    "a", "bc", "\n", "\r", "\u{8}", "\t", "\u{1b}M", "\u{1b}[A", "\u{1b}[B", "\u{1b}[C", "\u{1b}[D",
+    "\u{1b}[2;2H", "\u{1b}[H", "\u{1b}[2;3r", "\u{1b}[1;2r", "\u{1b}[r", "\u{1b}[?6h", "\u{1b}[?6l", "\u{1b}[?7l",
+    "\u{1b}[?7h", "\u{1b}7", "\u{1b}8", "\u{1b}[?1049h", "\u{1b}[?1049l", "\u{1b}[?47h", "\u{1b}[?47l",
+    "\u{1b}[4h", "\u{1b}[4l", "\u{1b}[L", "\u{1b}[M", "\u{1b}[S", "\u{1b}[T", "\u{1b}[@", "\u{1b}[P",
+    "\u{1b}[X", "\u{1b}[J", "\u{1b}[1J", "\u{1b}[K", "\u{1b}[1K", "\u{1b}[2b", "\u{1b}H", "\u{1b}[g",
+    "\u{1b}[7;31m", "\u{1b}[m", "\u{1b}c", "\u{1b}[!p", "R 1 1", "R 2 2", "R 3 1", "R 2 3",
+];
+
+pub fn generate_exhaustive(profile: &str, depth: usize, shard: usize, nshards: usize, out: &mut impl Write) {
+    let a = EXH_ALPHABET.len();
+    let nseq = a.pow(depth as u32);
+    let mut id = 0usize;
+    for (cols, rows) in EXH_SIZES.iter() {
+        for start in EXH_STARTS.iter() {
+            for limit in ["-", "0", "1"].iter() {
+                // the limit only matters once something can scroll: keep all three for depth <= 2
+                if depth > 2 && *limit == "1" {
+                    continue;
+                }
+                for q in 0..nseq {
+                    id += 1;
+                    if id % nshards != shard {
+                        continue;
+                    }
+                    writeln!(out, "CASE x{} {} exhaustive", id, profile).unwrap();
+                    writeln!(out, "N 0 {} {} {}", cols, rows, limit).unwrap();
+                    if !start.is_empty() {
+                        writeln!(out, "S 0 {}", hex_encode(start)).unwrap();
+                    }
+                    let mut x = q;
+                    for _ in 0..depth {
+                        let cmd = EXH_ALPHABET[x % a];
+                        x /= a;
+                        if let Some(rest) = cmd.strip_prefix("R ") {
+                            writeln!(out, "R 0 {}", rest).unwrap();
+                        } else {
+                            writeln!(out, "S 0 {}", hex_encode(cmd)).unwrap();
+                        }
+                    }
+                    if profile == "C01" || profile == "C11" {
+                        writeln!(out, "DUMP 0").unwrap();
+                    }
+                    writeln!(out, "END").unwrap();
+                }
+            }
+        }
     }
 }
